@@ -406,7 +406,7 @@ macro "lenient_contra" h3:ident : tactic => `(tactic|
 set_option maxHeartbeats 4000000 in
 theorem pairGeneral_conforms (m : Mode) (op : Op) (a b : Atom)
     (h1 : trigTol false op a b = false) (h2 : trigPromotion false a b = false)
-    (h3 : trigLenient m op a b = false) (h4 : trigUntyped op a b = false)
+    (h4 : trigUntyped op a b = false)
     (h5 : pairSpec m op a b ≠ .error .unsupported) (h6 : pairGeneral m op a b ≠ .error .unsupported)
     (h8 : dtConsistent a b = true) (h9 : trigUntypedQN m a b = false) :
     pairGeneral m op a b = pairSpec m op a b := by
@@ -488,5 +488,18 @@ theorem pairGeneral_conforms (m : Mode) (op : Op) (a b : Atom)
         | grind
         | (rename_i s t; by_cases h : s = t <;> simp [h] <;> grind)
 
+
+/-- all pair-level finding triggers of a general comparison are off for the pair, and the pair lies
+in the lexical fragment on which model and specification are defined -/
+def PairClean (m : Mode) (op : Op) (a b : Atom) : Prop :=
+  trigTol false op a b = false ∧ trigPromotion false a b = false ∧
+  (trigUntyped op a b = false ∧ trigUntypedQN m a b = false) ∧
+  pairSpec m op a b ≠ .error .unsupported ∧ pairGeneral m op a b ≠ .error .unsupported ∧
+  atomTzOK a = true ∧ atomTzOK b = true
+
+theorem pairGeneral_conforms_clean (m : Mode) (op : Op) (a b : Atom) (h : PairClean m op a b) :
+    pairGeneral m op a b = pairSpec m op a b :=
+  pairGeneral_conforms m op a b h.1 h.2.1 h.2.2.1.1 h.2.2.2.1 h.2.2.2.2.1
+    (dtConsistent_of_tzOK a b h.2.2.2.2.2.1 h.2.2.2.2.2.2) h.2.2.1.2
 
 end EPV.Cmp
